@@ -23,23 +23,27 @@ def splitIDDomain (sigil : UInt8) (id : Bytes) : Option Bytes :=
   | [] => none
   | c :: _ => if c == sigil then (cutAt 0x3A id).map (·.2) else none
 
-/-- first member with the exact key (gjson path lookup) -/
+/-- first member with the exact key (gjson path lookup; what `extractAuthorisedViaServerName` used before the
+    repair of K1 — kept for the kernel-checked comparison in VProps/C06.lean) -/
 def getFirst : List (Bytes × JVal) → Bytes → Option JVal
   | [], _ => none
   | (k', v) :: rest, k => if k' == k then some v else getFirst rest k
 
 def errRej (why : String) : Err := .other why
 
-/-- decoding `{membership string}` from the content (Go struct decoding: case-folded key, null tolerated) -/
+/-- decoding `{membership string}` from the content restricted to the member named EXACTLY `membership`
+    (`exactFieldsOnly`, then Go struct decoding: the last such member, null tolerated) -/
 def membershipField (c : JVal) : Option Bytes :=
   match c with
   | .null => some []
   | .obj kvs =>
-    let d := decString (lookupField kvs b!"membership")
+    let d := decString (lookupExact kvs b!"membership")
     if d.err then none else some d.val
   | _ => none
 
-/-- `e.Membership()`: decode the content, then insist on a state key. -/
+/-- `membershipForSignatures(e)` (eventcrypto.go): decode the exact `membership` member of the content, then insist
+    on a state key.  (Before the repair of K2 this was `e.Membership()`, which also matched case variants of the
+    name — `{"membership":"invite","Membership":"leave"}` read as a leave.) -/
 def membership (e : Event) : Except Err Bytes :=
   match e.content with
   | none => .error (errRej "membership")
@@ -48,22 +52,26 @@ def membership (e : Event) : Except Err Bytes :=
     | none => .error (errRej "membership")
     | some m => if e.stateKey.isNone then .error (errRej "membership") else .ok m
 
-/-- `extractAuthorisedViaServerName(content)`: `gjson.GetBytes(content, "join_authorised_via_users_server")`;
-    if the member exists its `String()` must split as a user ID.  For a non-string value `String()` is the
-    raw JSON text (or "" for null), which never starts with `@`: an error.  `ok []` = nobody extra. -/
+/-- `extractAuthorisedViaServerName(content)`: the content decoded as `map[string]json.RawMessage` (an object or
+    null), the member named exactly `join_authorised_via_users_server` (the last one) decoded as a Go string —
+    the reading of `NewMemberContentFromEvent`, i.e. of the auth rules — which must split as a user ID with a
+    non-empty server name.  `null` decodes to "" and does not split; any other non-string is a type error.
+    `ok []` = nobody extra. -/
 def extractAuthorisedVia (content : Option JVal) : Except Err Bytes :=
   match content with
   | some (.obj kvs) =>
-    match getFirst kvs b!"join_authorised_via_users_server" with
+    match lookupExact kvs b!"join_authorised_via_users_server" with
     | none => .ok []
-    | some (.str s) =>
-      match splitIDDomain 0x40 s with
-      | some d =>
+    | some v =>
+      let d := decString (some v)
+      if d.err then .error (errRej "authorised-via") else
+      match splitIDDomain 0x40 d.val with
+      | some dom =>
         -- an empty server name ("@user:") would be taken for "nobody" by the caller: refused (commit d4c4559)
-        if d.isEmpty then .error (errRej "authorised-via") else .ok d
+        if dom.isEmpty then .error (errRej "authorised-via") else .ok dom
       | none => .error (errRej "authorised-via")
-    | some _ => .error (errRej "authorised-via")
-  | _ => .ok []
+  | some .null => .ok []
+  | _ => .error (errRej "authorised-via")
 
 /-- `verImpl.RestrictedJoinServername(content)` by the regenerated column. -/
 def restrictedJoinServername (row : VGen.VersionRow) (content : Option JVal) : Except Err Bytes :=
@@ -156,6 +164,7 @@ of the content is verified first, through the caller's verifier, for every serve
 structure Mapping where
   servers : List Bytes      -- keys of mxid_mapping.signatures
   userID : Bytes
+  userRoomKey : Bytes := []
   deriving Repr
 
 /-- `*MXIDMapping` inside MemberContent: outer `none` = type error, `some none` = nil pointer -/
@@ -171,20 +180,22 @@ def decodeMapping (v : Option JVal) : Option (Option Mapping) :=
       | some sv => Sign.decodeOuterInto Sign.decodeSigVal none sv
     match sigs with
     | none => none
-    | some sm => if k.err || u.err then none else some (some ⟨(sm.getD []).map (·.1), u.val⟩)
+    | some sm => if k.err || u.err then none else some (some ⟨(sm.getD []).map (·.1), u.val, k.val⟩)
   | some _ => none
 
-/-- `getMXIDMapping`: the full `MemberContent` decode must succeed and carry a mapping. -/
+/-- `getMXIDMapping`: the full `MemberContent` decode of the content restricted to the members named exactly as
+    MemberContent's fields (`exactFieldsOnly`) must succeed and carry a mapping.  (The members INSIDE
+    `third_party_invite` / `mxid_mapping` are still matched by encoding/json's folded comparison.) -/
 def getMXIDMapping (e : Event) : Except Err Mapping :=
   match e.content with
   | some (.obj kvs) =>
     let errs : Bool :=
-      (decString (lookupField kvs b!"membership")).err || (decString (lookupField kvs b!"displayname")).err ||
-      (decString (lookupField kvs b!"avatar_url")).err || (decString (lookupField kvs b!"reason")).err ||
-      (decBool false (lookupField kvs b!"is_direct")).err ||
-      (Auth.decodeThirdParty (lookupField kvs b!"third_party_invite")).err ||
-      (decString (lookupField kvs b!"join_authorised_via_users_server")).err
-    match decodeMapping (lookupField kvs b!"mxid_mapping") with
+      (decString (lookupExact kvs b!"membership")).err || (decString (lookupExact kvs b!"displayname")).err ||
+      (decString (lookupExact kvs b!"avatar_url")).err || (decString (lookupExact kvs b!"reason")).err ||
+      (decBool false (lookupExact kvs b!"is_direct")).err ||
+      (Auth.decodeThirdParty (lookupExact kvs b!"third_party_invite")).err ||
+      (decString (lookupExact kvs b!"join_authorised_via_users_server")).err
+    match decodeMapping (lookupExact kvs b!"mxid_mapping") with
     | none => .error (errRej "member-content")
     | some none => if errs then .error (errRej "member-content") else .error (errRej "missing-mxid-mapping")
     | some (some mp) => if errs then .error (errRej "member-content") else .ok mp
@@ -213,6 +224,8 @@ def verifyPseudo (row : VGen.VersionRow) (e : Event) (valid : Request → Bool) 
           match getMXIDMapping e with
           | .error err => .error ⟨none, .error err⟩
           | .ok mp =>
+            -- the mapping must be the sender's own (K3): a mapping for another key says nothing about this sender
+            if mp.userRoomKey != e.sender then .error ⟨none, .error (errRej "mxid-mapping-key")⟩ else
             -- the server of the user the mapping names must be among the signers (commit e791b10)
             match splitIDDomain 0x40 mp.userID with
             | none => .error ⟨none, .error (errRej "mxid-mapping-user")⟩
@@ -237,6 +250,34 @@ def verifyPseudo (row : VGen.VersionRow) (e : Event) (valid : Request → Bool) 
           | .ok auth => finish asked (if auth.isEmpty then n1 else addNeeded auth n1)
         else finish asked n1
 
+/-! ## The reading of the auth rules: `NewMemberContentFromEvent`
+
+`Allowed` (C07) decides membership transitions on `MemberContent` as `NewMemberContentFromEvent` decodes it; C06 is
+only worth something if the user the auth rules take for the authoriser of a restricted join is the user whose server
+must sign.  The model below mirrors the repaired function (/repo "member content was read under case variants of
+its member names"): the content restricted to the members named EXACTLY as `MemberContent`'s fields, full decode
+with fall-back to the partial `membershipContent` — an error iff one of the four members the auth rules read is
+ill-typed.  `VModel/Auth.lean` (`decodeMemberContent`, C07's model) is the same function with the folded lookup the
+code had before; `VProps/C06.lean` relates the two (`memberContent_eq_auth`). -/
+
+structure MemberReading where
+  membership : Bytes
+  authorisedVia : Bytes
+  deriving Repr, DecidableEq
+
+def memberContent (c : Option JVal) : Option MemberReading :=
+  match c with
+  | none => none
+  | some .null => some ⟨[], []⟩
+  | some (.obj kvs) =>
+    let m := decString (lookupExact kvs b!"membership")
+    let tp := Auth.decodeThirdParty (lookupExact kvs b!"third_party_invite")
+    let av := decString (lookupExact kvs b!"join_authorised_via_users_server")
+    match decodeMapping (lookupExact kvs b!"mxid_mapping") with
+    | none => none
+    | some _ => if m.err || tp.err || av.err then none else some ⟨m.val, av.val⟩
+  | some _ => none
+
 /-! ## Specification: the required servers, from the property text
 
   * the sender's server;
@@ -244,7 +285,13 @@ def verifyPseudo (row : VGen.VersionRow) (e : Event) (valid : Request → Bool) 
   * for invite memberships also the invited user's server;
   * for joins carrying `join_authorised_via_users_server`, in versions that support restricted joins,
     also that user's server;
-  each checked at the event's origin_server_ts, with the strict key-validity rule from room version 5 on. -/
+  each checked at the event's origin_server_ts, with the strict key-validity rule from room version 5 on.
+
+  "The membership" and "join_authorised_via_users_server" of an event are the members of its content with EXACTLY
+  these names: that is what the redaction algorithm keeps (hence what the required servers signed), what other
+  implementations read, and what a JSON object with these members means.  A member under another spelling
+  (`Membership`, `JOIN_AUTHORISED_VIA_USERS_SERVER`, U+017F for `s`) is a different, unrelated member.  An object that
+  has one of the two names twice is not a JSON object the property speaks about (`unspecified`). -/
 namespace Spec
 
 /-- room versions are named by their key in the version table (a `String`) -/
@@ -261,14 +308,26 @@ def serverOf (sigil : UInt8) (id : Bytes) : Option Bytes :=
   | c :: rest => if c == sigil then (cutAt 0x3A rest).map (·.2) else none
   | [] => none
 
+/-- the member of a JSON object with exactly this name -/
+inductive Member where
+  | absent
+  | dup                 -- the name occurs more than once: not a JSON object in the property's sense
+  | val (v : JVal)
+
+def exactMember (kvs : List (Bytes × JVal)) (name : Bytes) : Member :=
+  match kvs.filter (fun kv => kv.1 == name) with
+  | [] => .absent
+  | [kv] => .val kv.2
+  | _ => .dup
+
 /-- membership of a member event, when it can be read (`none`: not a readable member event) -/
 def membershipOf (e : Event) : Option Bytes :=
   match e.content, e.stateKey with
   | some (.obj kvs), some _ =>
-    match lookupField kvs b!"membership" with
-    | some (.str m) => some m
-    | none => some []
-    | some .null => some []
+    match exactMember kvs b!"membership" with
+    | .val (.str m) => some m
+    | .absent => some []
+    | .val .null => some []
     | _ => none
   | some .null, some _ => some []
   | _, _ => none
@@ -299,15 +358,32 @@ def required (ver : String) (e : Event) (senderServer : Option Bytes) : Req :=
           else if m == b!"join" && supportsRestrictedJoins ver then
             match e.content with
             | some (.obj kvs) =>
-              match getFirst kvs b!"join_authorised_via_users_server" with
-              | none => .servers (s :: idl)
-              | some (.str u) =>
+              match exactMember kvs b!"join_authorised_via_users_server" with
+              | .absent => .servers (s :: idl)
+              | .dup => .unspecified
+              | .val (.str u) =>
                 match serverOf 0x40 u with
                 | some d => if d.isEmpty then .undeterminable else .servers (s :: idl ++ [d])
                 | none => .undeterminable
-              | some _ => .undeterminable
+              | .val _ => .undeterminable
             | _ => .servers (s :: idl)
           else .servers (s :: idl)
+
+/-- What the content of a member event says under the exact names (`none`: a name occurs twice).  This is the reading
+    the auth rules must use for the membership and the authoriser of a restricted join (the tie of C06 to C07):
+    a non-string value names nothing. -/
+def memberReading (c : Option JVal) : Option MemberReading :=
+  match c with
+  | some (.obj kvs) =>
+    let str (name : Bytes) : Option Bytes := match exactMember kvs name with
+      | .absent => some []
+      | .dup => none
+      | .val (.str x) => some x
+      | .val _ => some []
+    match str b!"membership", str b!"join_authorised_via_users_server" with
+    | some m, some v => some ⟨m, v⟩
+    | _, _ => none
+  | _ => some ⟨[], []⟩
 
 end Spec
 
